@@ -354,6 +354,35 @@ def run(chk, ctx):
               count=chk.rule_counts.get('C13.C', 0))
     chk.floor('C13.I', 22, 'constructors')
     chk.units['constrained_classes'] = n_constrained + 1
+    # frame.marshal adds no ValueError of its own: the only ValueErrors of
+    # the encode path are the validate() refusals
+    from .. import codec as _codec
+    from .. import layout as _L
+    pol_ = _codec.FramePolicy(prog)
+    fm_seen = set()
+    fm_bad = []
+    reps = [ci for _, ci in ctx.index_mapping()
+            if isinstance(ci, ClassInfo)]
+    for ci_ in reps[:: max(1, len(reps) // 6)]:
+        e_ = _L.method_encode(ctx, pol_, ci_)
+        for o_ in e_['outs']:
+            if o_.kind != 'raise' or o_.exc.primitive or \
+                    o_.exc.type_name != 'ValueError':
+                continue
+            if any(c.endswith('.validate') for c in o_.exc.chain):
+                continue
+            if o_.exc.site in fm_seen:
+                continue
+            fm_seen.add(o_.exc.site)
+            fm_bad.append('%s at %s via %s' % (
+                o_.exc.type_name, o_.exc.site,
+                '<-'.join(reversed(o_.exc.chain[-3:]))))
+    chk.ob('C13.M', 'frame.marshal refusals', not fm_bad,
+           'the encode path raises ValueError only inside validate()'
+           if not fm_bad else 'ValueError raised on the encode path outside '
+           'validate(): %s - a value that breaks no constraint is refused '
+           'with the exception that means "constraint broken"' %
+           '; '.join(fm_bad[:3]), site='pamqp/frame.py')
     # never on decode: who-may-call over frame.unmarshal
     from .. import framepaths as F
     chk.rule('C13.N', 'never on decode: validate() is reachable from '
@@ -400,7 +429,26 @@ def check_class(chk, ctx, ci, q, v, want, regex_ok, site):
                 'not allowed', ' via %s' % g.alphabet[2]
                 if g.alphabet else ''),
                detail={'specified': w}, site=site)
-    # construction
+    # construction: what is validated is what the caller passed - a
+    # constrained argument is stored as given (None / empty may become the
+    # empty value of its type), not replaced by an acceptable default
+    from .. import ctors
+    st_it_ = ctx.static()
+    ptypes_ = {}
+    for s_ in ctx.slots_of(ci):
+        t_ = st_it_.class_attr(ci, '_' + s_)
+        ptypes_[s_] = ctors.PY_OF_WIRE.get(t_, ('object',))[0]
+    try:
+        r_ = ctors.passthrough(ctx, ci, ptypes_)
+    except (AnalysisError, I.Unsupported):
+        r_ = None
+    if r_ is not None:
+        for nm_, ok_, text_ in r_[0]:
+            if nm_ in want and not ok_:
+                chk.ob('C13.I', '%s(%s)' % (q, nm_), False,
+                       'the constrained argument is stored as %s: a value '
+                       'that breaks the constraint is replaced before it is '
+                       'validated' % text_, site=site)
     init = prog.find_method(ci, '__init__')
     if init is None:
         chk.ob('C13.I', q + '.__init__', False, 'no constructor', site=site)
